@@ -158,7 +158,7 @@ def rule_round_trip(check, proto, rule):
             check.violation(rule, stp, 'apply_params builds the parameter list as [%s], expected [%s]'
                             % (', '.join('%s(%s)' % (o, show(a)) for o, a in seq), ', '.join('%s(%s)' % (o, show(a)) for o, a in exp)),
                             key=key, guards=lits_text(p.lits), witness="apply_params(s, *sort_params(s)) must equal s")
-    check.floor(rule, 'apply_params paths', n2, 4)
+    check.floor(rule, 'apply_params paths', n2, 2)
     # (c) consumers/producers of the six-position tuple
     for key_f, what in ((SIG + ':_embed', 'embed'), (SIG + ':_mask', 'mask')):
         fi = repo.func(key_f)
